@@ -114,9 +114,6 @@ def parse_set(text, name):
 
 def run(c, a):
     thorough = c.tier == "thorough"
-    known = os.path.join(ROOT, "proposed", "C19-known.json")
-    if os.path.exists(known):   # until the lead applies proposed/C19-clientauth.diff (BUILDERS.md)
-        c.findings = list(c.findings) + json.load(open(known))
     c.assumptions += [
         "the raw peer is Go's crypto/tls with run-time generated ECDSA P-256 certificates; credential classes are what "
         "their names say by construction of the factory",
